@@ -219,6 +219,10 @@ impl StateMachine<'_> {
             return Ok(());
         }
 
+        // The header is written directly to the writer: anything still waiting in the
+        // output buffer belongs to the previous file and must be written first.
+        self.painter.emit()?;
+
         if !self.mode_info.is_empty() {
             let format_label = |label: &str| {
                 if !label.is_empty() {
